@@ -84,6 +84,8 @@ def _value(rng, shape, CooMatrix, wrong=False):
         kinds.append("dense0d"); kinds.append("pyfloat")
     kind = kinds[int(rng.integers(len(kinds)))]
     A = rng.normal(size=vshape) * 10.0 ** rng.integers(-3, 4)
+    if rng.random() < 0.15:
+        A = A * 10.0 ** rng.uniform(-12, 12, size=vshape)      # entries of very different magnitude inside one block
     absA = cntA = None
     if rng.random() < 0.4:
         A[rng.random(size=vshape) < 0.5] = 0.0
